@@ -34,13 +34,18 @@ ADDRESS_SPACE = 2 << 30
 
 
 def install_alloc_watch():
-    """Bound the address space of this process and watch the format error classes: when one of them is
+    """Bound the address space of this process (what it uses now + 2 GiB) and watch the format error classes: when one of them is
     constructed while a MemoryError is being handled (the constructors' catch-all turns it into the
     format's error, read_program then swallows it) the file made the parser request gigabytes."""
     import resource
-    soft, hard = resource.getrlimit(resource.RLIMIT_AS)
-    resource.setrlimit(resource.RLIMIT_AS, (ADDRESS_SPACE, hard))
     from amoco.system import elf, pe, macho, coff
+    from amoco.system.structs import HEX, SREC
+    vm = 0
+    for line in open("/proc/self/status"):
+        if line.startswith("VmSize:"):
+            vm = int(line.split()[1]) * 1024
+    soft, hard = resource.getrlimit(resource.RLIMIT_AS)
+    resource.setrlimit(resource.RLIMIT_AS, (vm + ADDRESS_SPACE, hard))
     for mod, name in ((elf, "ElfError"), (pe, "PEError"), (macho, "MachOError"), (coff, "COFFError")):
         cls = getattr(mod, name)
         orig = cls.__init__
@@ -130,9 +135,8 @@ def crafted():
 
 
 def build_corpus(r, quick):
-    C = []       # (kind, data, expected class or None)
     for k, d, e in crafted():
-        C.append((k, d, e))
+        yield (k, d, e)
     # random data, some with a magic in front
     for _ in range(500 if quick else 4000):
         n = r.choice([1, 2, 4, 16, 20, 28, 32, 52, 64, 100, 300, 1000])
@@ -141,7 +145,7 @@ def build_corpus(r, quick):
         if m < 0.5:
             d = r.choice([b"\x7fELF", b"\x7fELF\x01\x01\x01", b"\x7fELF\x02\x02\x01", b"MZ", b"\xce\xfa\xed\xfe", b"\xcf\xfa\xed\xfe",
                           b"\xca\xfe\xba\xbe", b":", b"S1", b"S0", b"\x4c\x01", b":00000001FF\n", b" "]) + d
-        C.append(("random", d, None))
+        yield ("random", d, None)
     # samples: intact, truncated, corrupted
     for f in sample_files():
         b = open(f, "rb").read()
@@ -150,7 +154,7 @@ def build_corpus(r, quick):
         kind = "elf" if b[:4] == b"\x7fELF" else "pe" if b[:2] == b"MZ" else "macho" if b[:4] in (b"\xcf\xfa\xed\xfe", b"\xce\xfa\xed\xfe") else \
                "hex" if f.endswith(".hex") else "other"
         exp = {"elf": "Elf", "pe": "PE", "macho": "MachO", "hex": "HEX"}.get(kind)
-        C.append(("sample:" + kind, b, exp))
+        yield ("sample:" + kind, b, exp)
         n = len(b)
         if quick:
             cuts = sorted(set(list(range(0, min(n, 100))) + [r.randrange(n) for _ in range(30)]))
@@ -159,9 +163,9 @@ def build_corpus(r, quick):
         else:
             cuts = sorted(set(list(range(0, min(n, 2048))) + list(range(2048, n, max(1, n // 600))) + [r.randrange(n) for _ in range(300)]))
         for c in cuts:
-            C.append(("trunc:" + kind, b[:c], None))
+            yield ("trunc:" + kind, b[:c], None)
         for _ in range(30 if quick else 400):
-            C.append(("corrupt:" + kind, G.corrupt_bytes(r, b), None))
+            yield ("corrupt:" + kind, G.corrupt_bytes(r, b), None)
     # structure-aware corruptions: one field of one real table at a time, boundary values
     def struct_aware(tag, b, fmt, budget):
         # cost estimate of one read_program call from the size of the file (deterministic, so that the corpus depends on the seed only)
@@ -172,60 +176,59 @@ def build_corpus(r, quick):
         full = sum(len(G.boundary_values(b, o, sz, kd, fmt == "elf" and b[5:6] == b"\x02")) for (_, o, sz, kd) in F)
         quota = None if (not quick and full * dt <= budget) else max(1, min(24 if quick else 400, int(budget / dt / nlab)))
         for lab, desc, mut in G.structure_corruptions(r, b, fmt, quota=quota):
-            C.append(("struct:%s:%s" % (fmt, lab), mut, None))
+            yield ("struct:%s:%s" % (fmt, lab), mut, None)
     for f in sample_files():
         b = open(f, "rb").read()
         if len(b) > (1 << 18):
             continue
         fmt = "elf" if b[:4] == b"\x7fELF" else "pe" if b[:2] == b"MZ" else "macho" if b[:4] in (b"\xcf\xfa\xed\xfe", b"\xce\xfa\xed\xfe") else None
         if fmt:
-            struct_aware(f, b, fmt, (0.15 if fmt == "elf" else 2.0) if quick else 240.0)
+            yield from struct_aware(f, b, fmt, {"elf": 0.15, "pe": 2.0, "macho": 5.0}[fmt] if quick else 240.0)
     for i in range(8 if quick else 60):
         b, meta = G.synth_pe_imports(r)
-        C.append(("synth-pe-imports", b, "PE"))
-        struct_aware("synth-pe", b, "pe", 0.6 if quick else 60.0)
+        yield ("synth-pe-imports", b, "PE")
+        yield from struct_aware("synth-pe", b, "pe", 0.6 if quick else 60.0)
     for i in range(4 if quick else 40):
         b, meta = G.synth_macho(r)
-        C.append(("synth-macho", b, "MachO"))
-        struct_aware("synth-macho", b, "macho", 0.3 if quick else 30.0)
+        yield ("synth-macho", b, "MachO")
+        yield from struct_aware("synth-macho", b, "macho", 0.3 if quick else 30.0)
     for i in range(6 if quick else 60):
         b, meta = G.synth_elf(r, quirks=())
-        struct_aware("synth-elf", b, "elf", 0.3 if quick else 30.0)
+        yield from struct_aware("synth-elf", b, "elf", 0.3 if quick else 30.0)
     # synthesised ELF: valid, truncated, corrupted (the fully modelled format)
     for i in range(220 if quick else 2500):
         q = G.pick_quirks(r)
         x64, be = [(False, False), (False, True), (True, False), (True, True)][i % 4]
         b, meta = G.synth_elf(r, x64=x64, be=be, quirks=q)
-        C.append(("synth-elf", b, "Elf" if not q or set(q) <= {"bigent", "dupaddr", "utf8", "nostrndx", "noph", "unknown_pt", "unknown_sht", "nosh"} else None))
+        yield ("synth-elf", b, "Elf" if not q or set(q) <= {"bigent", "dupaddr", "utf8", "nostrndx", "noph", "unknown_pt", "unknown_sht", "nosh"} else None)
         for _ in range(3 if quick else 8):
-            C.append(("synth-elf-trunc", b[:r.randrange(len(b))], None))
+            yield ("synth-elf-trunc", b[:r.randrange(len(b))], None)
         for _ in range(3 if quick else 8):
-            C.append(("synth-elf-corrupt", G.corrupt_bytes(r, b, region=len(b)), None))
+            yield ("synth-elf-corrupt", G.corrupt_bytes(r, b, region=len(b)), None)
     # HEX / SREC streams
     for _ in range(200 if quick else 2000):
         recs = G.gen_hex_records(r)
         d = G.hex_stream(r, recs)
-        C.append(("hex", d, "HEX"))
+        yield ("hex", d, "HEX")
         ls = d.split(b"\n")
         i = r.randrange(len(ls))
         if ls[i].strip():
             k, ls[i] = G.corrupt_line(r, ls[i].rstrip(b"\r"), "hex")
-            C.append(("hex-corrupt", b"\n".join(ls), None))
+            yield ("hex-corrupt", b"\n".join(ls), None)
         # type-specific length violations (the asserts of HEXline.set)
         t = r.choice([2, 3, 4, 5])
         n = r.choice([0, 1, 2, 3, 4, 5])
-        C.append(("hex-extlen", G.hex_line(n, 0, t, bytes(r.getrandbits(8) for _ in range(n))) + b"\n", None))
-        C.append(("hex-extshort", G.hex_line(r.choice([2, 4]), 0, t, b"") [:-2] + b"%02X\n" % ((-(r.choice([2, 4]) + t)) & 0xff), None))
+        yield ("hex-extlen", G.hex_line(n, 0, t, bytes(r.getrandbits(8) for _ in range(n))) + b"\n", None)
+        yield ("hex-extshort", G.hex_line(r.choice([2, 4]), 0, t, b"") [:-2] + b"%02X\n" % ((-(r.choice([2, 4]) + t)) & 0xff), None)
         recs = G.gen_srec_records(r)
         if recs:
             d = G.srec_stream(r, recs)
-            C.append(("srec", d, "SREC"))
+            yield ("srec", d, "SREC")
             ls = d.split(b"\n")
             i = r.randrange(len(ls))
             if ls[i].strip():
                 k, ls[i] = G.corrupt_line(r, ls[i].rstrip(b"\r"), "srec")
-                C.append(("srec-corrupt", b"\n".join(ls), None))
-    return C
+                yield ("srec-corrupt", b"\n".join(ls), None)
 
 
 def allowed(mod):
@@ -260,7 +263,6 @@ def main(tier):
     if os.path.exists(os.path.join(LEAN, ".lake", "build", "bin", "drv_struct")):
         drv = Driver("drv_struct")
         env = R.elf_env()
-        C = build_corpus(r, quick)
         install_alloc_watch()
 
         def for_model(d):
@@ -269,51 +271,67 @@ def main(tier):
             if len(d) > 65536 and (d[:2] == b"MZ" or d[:4] in (b"\xcf\xfa\xed\xfe", b"\xce\xfa\xed\xfe")):
                 return d[:65536]
             return d
-        ans = drv.ask_many([{"op": "fmt.readprogram", "data": for_model(d).hex(), "pt": env["pt"], "sht": env["sht"]} for (k, d, e) in C])
-        for (kind, data, exp), mod in zip(C, ans):
-            real = real_outcome(data)
-            ck.case(("P", data), nontrivial="ok" in real and real["ok"] != "shellcode")
-            ck.count("in." + kind)
-            ck.count("out." + (real.get("ok") or "raise:" + real["exn"]))
-            if "err" in mod:
-                ck.count("model-error")
-                continue
-            if mod.get("elfraw") == "NotImplementedError":
-                ck.count("model-unmodelled(big table)")
-                mod_ok = False
-            else:
-                mod_ok = True
-            case = {"kind": kind, "data": data.hex() if len(data) <= 65536 else data[:65536].hex() + "...", "len": len(data)}
-            # ---- property oracle -----------------------------------------------------------------
-            if "exn" in real:
-                sig = "C20:%s:%s:%s" % (real["fmt"], real["exn"], real["loop"] if real["exn"] == "timeout" else real["site"])
-                what = "read_program does not come back within %.0f s (in %s)" % (TIME_LIMIT, real["loop"]) if real["exn"] == "timeout" else \
-                       "%s escapes read_program (raised in %s while trying %s)" % (real["exn"], real["site"], real["fmt"])
-                ck.report(sig, what, "oracle", "Amoco.Fmt.Props20.read_program_total", case=case, real=real, model=mod,
-                          expected="a format object or the raw fallback")
-                continue
-            if "alloc" in real:
-                a = real["alloc"]
-                ck.report("C20:%s:alloc:%s" % (a["fmt"], a["loop"]), "a size field of the file makes read_program request more than %d GiB of memory (in %s)"
-                          % (ADDRESS_SPACE >> 30, a["loop"]), "oracle", "Amoco.Fmt.Props20.read_program_total (allocation)", case=case, real=real, model=mod,
-                          expected="allocations bounded by the size of the input")
-            if real["t"] > 2.0:
-                slow.append((real["t"], kind, len(data)))
-            if exp is not None and real["ok"] != exp:
-                ck.report("C20:claimed:%s-as-%s" % (exp, real["ok"]), "a valid %s file is identified as %s" % (exp, real["ok"]), "oracle",
-                          "Amoco.Fmt.Props20.magic_disjoint", case=case, real=real, model=mod, expected=exp)
-                continue
-            # ---- correspondence -------------------------------------------------------------------
-            if not mod_ok:
-                continue
-            if real["ok"] not in allowed(mod):
-                corr.append(("outcome", case, real["ok"], mod))
-            elif mod["elf"] != "ok" and real["ok"] == "Elf":
-                corr.append(("elf-accept", case, real["ok"], mod))
+        first = last = None
+
+        def batches(gen, n=1500):
+            buf = []
+            for x in gen:
+                buf.append(x)
+                if len(buf) >= n:
+                    yield buf
+                    buf = []
+            if buf:
+                yield buf
+        for C in batches(build_corpus(r, quick)):
+            ans = drv.ask_many([{"op": "fmt.readprogram", "data": for_model(d).hex(), "pt": env["pt"], "sht": env["sht"]} for (k, d, e) in C])
+            if first is None:
+                first = (C[0], ans[0])
+            last = (C[-1], ans[-1])
+            for (kind, data, exp), mod in zip(C, ans):
+                real = real_outcome(data)
+                ck.case(("P", data), nontrivial="ok" in real and real["ok"] != "shellcode")
+                ck.count("in." + kind)
+                ck.count("out." + (real.get("ok") or "raise:" + real["exn"]))
+                if "err" in mod:
+                    ck.count("model-error")
+                    continue
+                if mod.get("elfraw") == "NotImplementedError":
+                    ck.count("model-unmodelled(big table)")
+                    mod_ok = False
+                else:
+                    mod_ok = True
+                case = {"kind": kind, "data": data.hex() if len(data) <= 65536 else data[:65536].hex() + "...", "len": len(data)}
+                # ---- property oracle -----------------------------------------------------------------
+                if "exn" in real:
+                    sig = "C20:%s:%s:%s" % (real["fmt"], real["exn"], real["loop"] if real["exn"] == "timeout" else real["site"])
+                    what = "read_program does not come back within %.0f s (in %s)" % (TIME_LIMIT, real["loop"]) if real["exn"] == "timeout" else \
+                           "%s escapes read_program (raised in %s while trying %s)" % (real["exn"], real["site"], real["fmt"])
+                    ck.report(sig, what, "oracle", "Amoco.Fmt.Props20.read_program_total", case=case, real=real, model=mod,
+                              expected="a format object or the raw fallback")
+                    continue
+                if "alloc" in real:
+                    a = real["alloc"]
+                    ck.report("C20:%s:alloc:%s" % (a["fmt"], a["loop"]), "a size field of the file makes read_program request more than %d GiB of memory (in %s)"
+                              % (ADDRESS_SPACE >> 30, a["loop"]), "oracle", "Amoco.Fmt.Props20.read_program_total (allocation)", case=case, real=real, model=mod,
+                              expected="allocations bounded by the size of the input")
+                if real["t"] > 2.0:
+                    slow.append((real["t"], kind, len(data)))
+                if exp is not None and real["ok"] != exp:
+                    ck.report("C20:claimed:%s-as-%s" % (exp, real["ok"]), "a valid %s file is identified as %s" % (exp, real["ok"]), "oracle",
+                              "Amoco.Fmt.Props20.magic_disjoint", case=case, real=real, model=mod, expected=exp)
+                    continue
+                # ---- correspondence -------------------------------------------------------------------
+                if not mod_ok:
+                    continue
+                if real["ok"] not in allowed(mod):
+                    corr.append(("outcome", case, real["ok"], mod))
+                elif mod["elf"] != "ok" and real["ok"] == "Elf":
+                    corr.append(("elf-accept", case, real["ok"], mod))
         drv.close()
         ck.cov["slowest_calls"] = sorted(slow, reverse=True)[:5]
-        ck.sample({"in": [C[0][0], C[0][1].hex()[:64]], "model": ans[0]})
-        ck.sample({"in": [C[-1][0], C[-1][1][:48].decode("latin1")], "model": ans[-1]})
+        if first:
+            ck.sample({"in": [first[0][0], first[0][1].hex()[:64]], "model": first[1]})
+            ck.sample({"in": [last[0][0], last[0][1][:48].decode("latin1")], "model": last[1]})
     for b in broken:
         ck.report("C20:proof-obligation", "proof obligation broken: %s" % b[:300], "proof-obligation", b[:2000], failing_input_found=False)
     if corr:
